@@ -216,16 +216,22 @@ CleanupEffect(s) ==
   LET rb == bTx[s] /\ "no_rollback_at_checkin" \notin Dev      \* ROLLBACK is sent
       rs == dirty[s] /\ "no_reset_at_checkin" \notin Dev        \* RESET / DEALLOCATE is sent
       sends == rb \/ rs
+      \* a statement sent into an open COPY IN only aborts the COPY and is not executed itself
+      swallow == tCopy[s] = "in" /\ sends
       resetWorks == ~("reset_before_rollback" \in Dev /\ tTx[s] # "I") /\ (tTx[s] = "I" \/ rb)
   IN
-  /\ tTx' = [tTx EXCEPT ![s] = IF rb THEN "I" ELSE @]
+  /\ tTx' = [tTx EXCEPT ![s] = IF swallow THEN (IF rb /\ @ # "I" THEN "E" ELSE @) ELSE IF rb THEN "I" ELSE @]
   /\ bTx' = [bTx EXCEPT ![s] = FALSE]
-  /\ tDirt' = [tDirt EXCEPT ![s] = IF rs /\ resetWorks THEN NONE ELSE @]
-  /\ tPend' = [tPend EXCEPT ![s] = IF rb THEN NONE ELSE @]
+  /\ tDirt' = [tDirt EXCEPT ![s] = IF rs /\ resetWorks /\ ~swallow THEN NONE ELSE @]
+  /\ tPend' = [tPend EXCEPT ![s] = IF rb /\ ~swallow THEN NONE ELSE @]
   /\ dirty' = [dirty EXCEPT ![s] = FALSE]
   /\ tCopy' = [tCopy EXCEPT ![s] = IF sends THEN "no" ELSE @]
   /\ tUnread' = [tUnread EXCEPT ![s] = IF sends /\ tCopy[s] = "in" THEN FALSE ELSE @]
-  /\ UNCHANGED <<bCopy, bData>>
+  \* Design: a connection that is in COPY when it comes back is not cleaned at all but closed (the belief stays, PutBack
+  \* closes it).  Deviation cleanup_in_copy_reuses: the clean-up statements are sent, the error reply of the swallowed one
+  \* ends COPY mode in the pooler's belief, and the connection passes the reuse test.
+  /\ bCopy' = [bCopy EXCEPT ![s] = IF "cleanup_in_copy_reuses" \in Dev /\ sends THEN FALSE ELSE @]
+  /\ UNCHANGED bData
 
 \* bb8 put-back: ServerPool::has_broken decides reuse or close.
 \* Design: an unclean connection is closed.  Deviation `putback_reuses_unclean`: only `bad`
@@ -242,7 +248,7 @@ EndWithCleanup(c, exit) ==
   /\ pc[c] \in {"cleanup", "intx"} /\ (pc[c] = "cleanup" => ~exit)
   /\ LET s == held[c] IN
        /\ CleanupEffect(s)
-       /\ PutBack(s, bad[s], bTx'[s], bCopy[s], bData[s], dirty'[s])
+       /\ PutBack(s, bad[s], bTx'[s], bCopy'[s], bData[s], dirty'[s])
        /\ UNCHANGED <<bad, last>>
   /\ held' = [held EXCEPT ![c] = NONE]
   /\ cmap' = [cmap EXCEPT ![c] = IF "map_kept_after_release" \in Dev /\ ~exit THEN @ ELSE NONE]
@@ -400,7 +406,7 @@ BeliefSound ==
 Deviations == {"putback_reuses_unclean", "copydone_single_recv", "copydone_no_copy_check", "set_in_tx_not_marked",
                "reset_before_rollback", "timeout_keeps_connection", "failed_tx_counts_as_idle", "prepare_not_marked",
                "session_mode_releases", "no_rollback_at_checkin", "no_reset_at_checkin", "map_kept_after_release",
-               "early_return_leaks_guard", "error_keeps_copy_mode", "timeout_marks_bad_after_write", "local_batch_keeps_server", "reset_clears_dirty"}
+               "early_return_leaks_guard", "error_keeps_copy_mode", "timeout_marks_bad_after_write", "local_batch_keeps_server", "reset_clears_dirty", "cleanup_in_copy_reuses"}
 
 Quiescent == \A c \in Clients : pc[c] \in {"off", "idle", "gone"}
 
